@@ -3,12 +3,16 @@ package checks
 import (
 	"encoding/json"
 	"fmt"
+	"os"
+	"path/filepath"
 	"reflect"
 	"sort"
 	"strings"
+	"sync/atomic"
 
 	"github.com/dave/jennifer/jen"
 
+	"verif/internal/a2j"
 	"verif/internal/ev"
 	"verif/internal/explore"
 	"verif/internal/jh"
@@ -303,8 +307,8 @@ func runC13(r *ev.Recorder) {
 		"also arities 8, 17, 40, 130 with one null item at every slot and with null items at all slots. (b) Empty(): at every position of every arity 1..%d; oracle: raw bytes equal those with an identifier in its place after deleting the identifier. "+
 		"(c) re-render: a placeholder item (bare, or inside List/Union/Add/Custom/Types) that is null at the first render and real at the second, and vice versa; each render must equal a freshly built list. "+
 		"(d) one argument slice with nil entries spread into two constructs (every ordered pair of constructs x every nil placement): both render as if built privately, twice, and the caller's slice is unchanged. "+
-		"distinct_nontrivial = distinct (construct, item list) cases with at least one injected/Empty/placeholder item", len(c13Constructs), cn, maxArity, len(c13Nulls), nn, dev, maxArity)
-	r.Assume = []string{"an empty Types() used as a list item, and Dict{}, are not in the property's list of vanishing items and are not injected", "program-level injections are part of C01's bridge (not yet in this check)"}
+		"(e) program level: real programs of the corpus, translated into the DSL with null items injected at every list-construct site under 3 uniform policies, must re-parse to the same syntax tree. distinct_nontrivial = distinct (construct, item list) cases with at least one injected/Empty/placeholder item", len(c13Constructs), cn, maxArity, len(c13Nulls), nn, dev, maxArity)
+	r.Assume = []string{"an empty Types() used as a list item, and Dict{}, are not in the property's list of vanishing items and are not injected", "program level: every 12th corpus file in the quick tier, every file in the thorough tier"}
 
 	for ci, lc := range c13Constructs {
 		ci, lc := ci, lc
@@ -400,6 +404,70 @@ func runC13(r *ev.Recorder) {
 		}
 	}
 	r.Count("constructs", int64(len(c13Constructs)))
+
+	// (e) program level: null items injected at EVERY list-construct site of real programs (corpus
+	// files, translated by internal/a2j) under three uniform policies; the syntax tree must not change
+	policies := []struct {
+		name string
+		fn   func(site int, name string, items []jen.Code) []jen.Code
+	}{
+		{"Null() first, nil last", func(site int, name string, items []jen.Code) []jen.Code {
+			return append(append([]jen.Code{jen.Null()}, items...), nil)
+		}},
+		{"an empty List()/Add()/Tag(nil) between all items", func(site int, name string, items []jen.Code) []jen.Code {
+			out := []jen.Code{}
+			for i, it := range items {
+				if i > 0 {
+					out = append(out, c13Nulls[3+(site+i)%4].mk())
+				}
+				out = append(out, it)
+			}
+			return out
+		}},
+		{"two null items of rotating kinds around every item", func(site int, name string, items []jen.Code) []jen.Code {
+			out := []jen.Code{}
+			for i, it := range items {
+				out = append(out, c13Nulls[(site+i)%len(c13Nulls)].mk(), it, c13Nulls[(site+2*i+1)%len(c13Nulls)].mk())
+			}
+			if len(items) == 0 {
+				out = append(out, c13Nulls[site%len(c13Nulls)].mk())
+			}
+			return out
+		}},
+	}
+	stride := int64(12)
+	if r.Tier == ev.Thorough {
+		stride = 1
+	}
+	root := filepath.Join(defaultGoroot, "src")
+	files := goFilesBelow(root)
+	res := newResolver(defaultGoroot)
+	var progs, sitesTotal atomic.Int64
+	explore.Range(int64(len(files)), 0, r.Expired, func(_ int, i int64) {
+		if i%stride != 0 {
+			return
+		}
+		src, err := os.ReadFile(files[i])
+		if err != nil {
+			return
+		}
+		base := roundTrip(files[i], src, res.name, a2j.Hooks{})
+		if base.Kind != "ok" {
+			return
+		}
+		for pi, pol := range policies {
+			b := roundTrip(files[i], src, res.name, a2j.Hooks{Items: pol.fn})
+			r.Eval(1)
+			progs.Add(1)
+			sitesTotal.Add(int64(b.Sites))
+			d := fmt.Sprintf("%s with policy %q at all %d list sites", strings.TrimPrefix(files[i], root+"/"), pol.name, b.Sites)
+			r.Distinct(d)
+			if b.Kind != "ok" {
+				r.Violate(ev.Violation{Signature: "c13:program:" + b.Kind, What: d + ": " + b.Kind + " " + jh.Short(b.Detail, 300), Case: ev.JSON(c13Case{Kind: "program", Construct: pi, Desc: files[i]}), Detail: b.Detail})
+			}
+		}
+	})
+	r.Note("program_level", map[string]any{"programs_with_injection": progs.Load(), "list_sites_injected": sitesTotal.Load(), "corpus_stride": stride})
 }
 
 func replayC13(raw json.RawMessage) (bool, string) {
@@ -418,6 +486,15 @@ func replayC13(raw json.RawMessage) (bool, string) {
 		}
 	case "large":
 		return true, "large-arity cases are replayed by running the check"
+	case "program":
+		src, err := os.ReadFile(c.Desc)
+		if err != nil {
+			return true, "corpus file not readable"
+		}
+		b := roundTrip(c.Desc, src, newResolver(defaultGoroot).name, a2j.Hooks{Items: func(site int, name string, items []jen.Code) []jen.Code {
+			return append(append([]jen.Code{jen.Null()}, items...), nil)
+		}})
+		return b.Kind == "ok", c.Desc + ": " + b.Kind + " " + b.Detail
 	case "empty":
 		msg = c13Empty(lc, c.Arity, c.Pos)
 	case "rerender":
